@@ -17,7 +17,7 @@ from lib import common, e2echeck, e2egen  # noqa: E402
 
 
 def main(run: common.Run):
-    n = 6 if run.tier == "quick" else 100
+    n = 6 if run.tier == "quick" else 60
     run.bounds = {"contracts": n, "functions_per_contract": 8, "configs": [c["name"] for c in e2echeck.CONFIGS],
                   "bytes_lengths": e2egen.BYTES_LENS, "array_lengths": e2egen.ARRAY_LENS}
     run.functions_encoded = ["halmos.__main__.CounterexampleHandler._solve_end_to_end_callback", "halmos.solve.solve_end_to_end",
